@@ -62,6 +62,7 @@ type event struct {
 
 type ccase struct {
 	Kind string  `json:"kind"`
+	Core bool    `json:"core"`
 	MM   []entry `json:"mm"`
 	Ev   event   `json:"ev"`
 	Comp struct {
@@ -137,6 +138,8 @@ func tagsOf(class string) gostatsd.Tags {
 		return gostatsd.Tags{"env:prod"}
 	case "two":
 		return gostatsd.Tags{"env:prod", "ünïcode:✓"}
+	case "srclike": // with no source its tags key is the string a series with tags "one" and source h1 has
+		return gostatsd.Tags{"env:prod", "s:h1"}
 	}
 	return nil
 }
@@ -296,7 +299,7 @@ func TestCases(t *testing.T) {
 			if err := json.Unmarshal(raw, &c); err != nil {
 				return err
 			}
-			if c.Kind == "map" && (idx+int(seed))%every != 0 {
+			if c.Kind == "map" && !c.Core && (idx+int(seed))%every != 0 {
 				return nil
 			}
 			rng := vh.NewRng(seed, idx)
